@@ -1102,11 +1102,55 @@ def used_parent_monitor(rep):
                         break
 
 
+def used_parent_basis_monitor(rep):
+    """Basis-expansion data: a selection of an already analysed parent gives, for every operation and option (here the integration
+    rule of the norm), what a dataset built afresh from the same coefficients gives."""
+    import warnings
+    from FDApy.representation.basis import Basis
+    from FDApy.representation.functional_data import BasisFunctionalData
+    from FDApy.representation.argvals import DenseArgvals
+    rng = np.random.default_rng([C.seed(), 13, 8])
+    t = np.linspace(0, 1, 21)
+    coef = np.round(rng.normal(size=(5, 4)) * 16) / 16 + 1.0
+
+    def fresh(rows):
+        return BasisFunctionalData(basis=Basis(name="bsplines", n_functions=4, argvals=DenseArgvals({"input_dim_0": t})),
+                                   coefficients=coef[rows].copy())
+    stats = [("norm(simpson)", lambda d: d.norm(method_integration="simpson")), ("norm()", lambda d: d.norm()),
+             ("norm(squared, simpson)", lambda d: d.norm(squared=True, method_integration="simpson")),
+             ("mean", lambda d: d.mean().to_grid().values), ("center", lambda d: d.center().to_grid().values),
+             ("inner_product(simpson)", lambda d: d.inner_product(method_integration="simpson"))]
+    try:
+        with warnings.catch_warnings():
+            warnings.simplefilter("ignore")
+            parent = fresh(np.arange(5))
+            parent.norm(); parent.mean(); parent.center(); parent.inner_product()          # the parent is analysed first (default options)
+            subsets = [("int", parent[2], np.array([2])), ("slice", parent[1:4], np.arange(1, 4)),
+                       ("index array", parent[np.array([4, 0, 3])], np.array([4, 0, 3]))]
+            subsets += [(f"iteration #{k}", obs, np.array([k])) for k, obs in enumerate(parent) if k == 3]
+            for nm, sub, rows in subsets:
+                twin = fresh(rows)
+                for name, f in stats:
+                    a_, b_ = np.asarray(f(sub), float), np.asarray(f(twin), float)
+                    rep.case(("used-parent-basis", nm, name), kind="history/analysed-parent-basis")
+                    if a_.shape != b_.shape or not np.allclose(a_, b_, rtol=1e-10, atol=1e-12):
+                        rep.violation(f"basis-expansion data: after the parent has been analysed, {name} of the selection [{nm}] differs from "
+                                      f"{name} of a dataset built from the same coefficients (max {np.max(np.abs(a_ - b_)) if a_.shape == b_.shape else 'shape'}) "
+                                      f"— state inherited from the parent", {"selection": nm, "rows": rows.tolist(), "statistic": name,
+                                                                            "coefficients": C.hexf(coef)})
+                        break
+    except ModuleNotFoundError:
+        return
+    except Exception as e:  # noqa: BLE001
+        rep.notes.append(f"analysed-parent monitor for basis data raised {type(e).__name__}: {e}"[:160])
+
+
 def run(rep, props, replay=None):
     quick = C.tier() == "quick"
     if replay is not None:
         return replay_case(rep, replay, quick)
     used_parent_monitor(rep)
+    used_parent_basis_monitor(rep)
     import time
     t0 = time.time()
     box = pyindex_validation_start()
